@@ -167,7 +167,15 @@ def run(chk):
     srvcheck.model_only(chk, "C17", runs=n, nsteps=250, gen_kw={"wild": True, "other": 3.0, "bind": 5353}, seed_mul=49979687)
     srvcheck.model_only(chk, "C17", runs=n, nsteps=250, gen_kw={"wild": False, "other": 3.0}, seed_mul=67867967)
     chk.cov["rule"] += "; call sites: generated server sessions with plain and wildcard-served domains (NS/A/outside queries boosted) vs the byte-level server model"
+    # the call sites: the real main() of both programs on generated command lines (top domains of 3..300 characters, wildcard forms);
+    # whatever configuration the session machine is started with must carry a valid domain
+    import maincheck
+    maincheck.run(chk, "C17")
+    chk.cov["rule"] += "; main(): generated command lines for iodined and iodine through the real option handling (checks/maincheck.py)"
 
 
 def replay(chk, path):
+    import maincheck
+    if maincheck.is_main_replay(path):
+        return maincheck.replay(chk, path)
     return vlib.pure_replay(chk, path, oracle)
